@@ -211,7 +211,7 @@ def trace_values(trace_json, hname, names):
         if not base:
             continue
         fn = (st.get('sourceLocation') or {}).get('function', '')
-        if base.group(0) in names and fn in (hname, 'bs_harness_init', ''):
+        if base.group(0) in names and fn in (hname, 'bs_harness_init'):
             lhs2 = re.sub(r'\[(\d+)l\]', r'[\1]', lhs)
             val_leaves(st.get('value', {}), lhs2, vals)
     return status, vals
@@ -241,12 +241,32 @@ def cxx_type(u, t):
     return s
 
 
-def conv_code(u):
-    """to_real / from_real for every mirror type of the unit"""
+def reachable_types(u, ctys):
+    """mangled names of the struct types reachable from the given C type spellings"""
+    seen, todo = set(), [c[len('struct '):] for c in ctys if c.startswith('struct ')]
+    while todo:
+        n = todo.pop()
+        if n in seen or n not in u.type_done or u.type_done[n] is None:
+            continue
+        seen.add(n)
+        info = u.type_done[n]
+        if info[0] in ('array', 'vector', 'optional', 'shared_ptr'):
+            c = u.cty(info[1])
+            if c.startswith('struct '):
+                todo.append(c[len('struct '):])
+        elif info[0] == 'record':
+            for fn_, ft in record_fields(u, 'struct ' + n):
+                if ft.startswith('struct '):
+                    todo.append(ft[len('struct '):])
+    return seen
+
+
+def conv_code(u, only=None):
+    """to_real / from_real for the mirror types (all of the unit, or only the given ones)"""
     out = []
     decl = []
     for name, info in u.type_done.items():
-        if info is None:
+        if info is None or (only is not None and name not in only):
             continue
         tag = info[0]
         m = 'struct ' + name
@@ -378,6 +398,8 @@ static inline bool to_real(bool x) { return x; }
 static inline bool from_real(bool x) { return x; }
 static inline int to_real(int x) { return x; }
 static inline int from_real(int x) { return x; }
+static inline T T_from_int(int k) { return T(k); }
+static inline T T_from_size(size_t k) { return T((unsigned long long)k); }
 static inline long to_real(long x) { return x; }
 static inline long from_real(long x) { return x; }
 %(conv)s
@@ -430,6 +452,9 @@ def build_and_run(rec, r, o, blocks, bsv):
         clause = None
     if clause and ('__CPROVER_forall' in clause or '__CPROVER_exists' in clause):
         rec['replay_note'] = 'the failed clause is quantified: it cannot be evaluated natively'
+        return False
+    if any('AbsUp' in ct for ct in [b.fn]):
+        rec['replay_note'] = 'the block is stated over abstract child operators (driver classes without a definition): there is no native object to run; see the concrete instances of the same operator classes'
         return False
     notes = []
     for phase, concretise in (('A: integers from the model, generic scalars', False), ('B: scalars pinned to k/%d' % DEN, True)):
@@ -598,7 +623,7 @@ def one_phase(rec, r, o, blocks, bsv, clause, concretise, notes):
     prog = PROG % {
         'what': '%s / %s' % (b.name, o['id']), 'tdef': tdef, 'cap': RCAP, 'root': ROOT,
         'enums': '\n'.join('#define %s %d' % kv for kv in sorted(u.enums.items())),
-        'types': types, 'conv': conv_code(u), 'decls': '\n'.join(decls), 'assign': '\n'.join(assigns),
+        'types': types, 'conv': conv_code(u, reachable_types(u, [ct for nm, ct in inputs] + [rt, 'struct vec_T'] + ['struct ' + w for w in re.findall(r'struct (\w+)', fi.rstruct or '')])), 'decls': '\n'.join(decls), 'assign': '\n'.join(assigns),
         'requires': '\n'.join(reqs), 'result_decl': result_decl, 'reals': '\n'.join(reals),
         'call': '\n'.join(calls), 'clause': cl,
         'clause_str': json.dumps(clause or rec.get('description') or ''), 'obs': 'bs_exc after the call: %d", bs_exc); std::printf("',
